@@ -507,3 +507,8 @@ func TestCornerGrid(t *testing.T) {
 }
 
 func (s scalar) str() string { return string(s) }
+
+// FuzzGenOps: the structured generator driven by Go's coverage-guided fuzzer (thorough tier).
+func FuzzGenOps(f *testing.F) {
+	h.FuzzSub(f, h.Sub[opCase]{Prop: "C17", Name: "group-ops", Gen: genOp, Check: checkOp})
+}
